@@ -13,7 +13,7 @@ EXPLANATION = ("Structural necessary conditions of exactly-once delivery: stream
                "leaf futures (coroutine layout); the worker pulls an item from quinn only after reserving a slot on every queue "
                "it can be routed to; each per-stream task hands a parsed stream to exactly one queue through an infallible "
                "Permit::send and drops it only on the enumerated error arms."
-               ' Also (C08-R7/R8): a reset before the preamble stays a per-stream IO event; the public accept calls ask the driver first on every path (queued items are drained before the termination cause is reported). C08-R9 ("with its own bytes"): SendStream/RecvStream -> Quic{Send,Recv}Stream -> quinn pass the buffer of the caller and the count/end-of-stream marker of quinn unchanged; write_all is the write_all of quinn; every tokio poll_* method forwards to the same method of the wrapped stream. C08-R10: the accept / open constructors of the driver stream layer wrap exactly the stream quinn returned and every stage transition (upgrade, into_session, into_stream) keeps the same quinn stream.')
+               ' Also (C08-R7/R8): a reset before the preamble stays a per-stream IO event; the public accept calls ask the driver first on every path (queued items are drained before the termination cause is reported). C08-R9 ("with its own bytes"): SendStream/RecvStream -> Quic{Send,Recv}Stream -> quinn pass the buffer of the caller and the count/end-of-stream marker of quinn unchanged; write_all is the write_all of quinn; every tokio poll_* method forwards to the same method of the wrapped stream. C08-R10: the accept / open constructors of the driver stream layer wrap exactly the stream quinn returned and every stage transition (upgrade, into_session, into_stream) keeps the same quinn stream. C08-R11: the worker loop suspends only in its select!; a handler that waits (e.g. for room in the sessions queue) would stop every later stream from being pulled.')
 NOT_DECIDED = ["exactly-once of quinn's accept queue and tokio's mpsc (trusted)", "behaviour with many concurrent acceptors at run time"]
 TRUSTED = ["rustc trait/impl table and coroutine layout", "tokio mpsc / Mutex cancel-safety as documented", "quinn accept futures' cancel-safety as documented"]
 
@@ -97,3 +97,6 @@ def run(ctx):
 
     ctx.rule("C08-R10", "none invented, none swapped: the driver's stream layer wraps exactly the stream quinn returned and every stage transition keeps that same stream")
     shared.driver_stream_layer(ctx, "C08-R10")
+
+    ctx.rule("C08-R11", "streams keep being pulled at any acceptance pace of anything else: the worker loop suspends only in its select!, no handler waits for room in another queue")
+    shared.worker_loop_never_parks(ctx, "C08-R11", idx)
